@@ -144,7 +144,7 @@ fn gen_cases(rng: &mut Rng, tier: Tier) -> Vec<Value> {
             }
             if clustered {
                 sp.clustering = Some(gen_clustering(rng, &sp));
-                return json!({"k": "clustered", "sp": sp, "row": i, "gens": gens, "relations": rng.chance(3, 4), "rseed": rng.next() % 1000});
+                return json!({"k": "clustered", "sp": sp, "row": i, "gens": gens, "relations": i % 12 == 1 || rng.chance(3, 4), "rseed": rng.next() % 1000});
             }
             // one problem in five states its objectives explicitly (work balance, compact tours, arrival time, fast service,
             // distance / duration instead of cost, maximize tours): whatever is optimised, the hard rules hold
